@@ -539,6 +539,41 @@ AREAS = [
                    'endpoint->GetLogDuration()': Zb('log_duration'), 'endpoint->GetLocalLogPosition()': Zb('local_log_position')},
              fns={'rz->GetParent': ('rl_zparent t', ['rz'], 'rz')}),
     ]),
+    # ---------------------------------------------------------------------------------------- round 2: C08 segment arithmetic of TimePeriod
+    dict(area='tp2', requires=['Icv.Src.XlPrelude'], items=[
+        # one iteration of the merge loop of AddSegment: the segment is edited in place (state $sb/$se); left by `return` = merged
+        dict(name='timeperiod_add_segment_iter', func='TimePeriod::AddSegment', file='lib/icinga/timeperiod.cpp', props=['C08'], nparams=2,
+             region=(r'if\s*\(\s*segment->Get\("begin"\)\s*<=\s*begin\s*&&\s*segment->Get\("end"\)\s*>=\s*end\s*\)', r'\}\s*\}\s*Dictionary::Ptr\s+segment\s*='),
+             region_exit=True, outputs=[],
+             inputs=[('b', 'Z'), ('e', 'Z'), ('sb0', 'Z'), ('se0', 'Z')], ret='void', rcoq='bool * Z * Z', dummy='(false, 0, 0)',
+             params={'begin': Zb('b'), 'end': Zb('e')}, aliases={'segment': 'segment'},
+             state=[('$sb', 'sb0', 'Z'), ('$se', 'se0', 'Z')],
+             getters={'segment->Get("begin")': '$sb', 'segment->Get("end")': '$se'},
+             setters={'segment->Set("begin")': '$sb', 'segment->Set("end")': '$se'}),
+        # one iteration of the loop of RemoveSegment: what is appended to newSegments
+        dict(name='timeperiod_remove_segment_iter', func='TimePeriod::RemoveSegment', file='lib/icinga/timeperiod.cpp', props=['C08'], nparams=2,
+             region=(r'if\s*\(\s*segment->Get\("begin"\)\s*>=\s*begin\s*&&\s*segment->Get\("end"\)\s*<=\s*end\s*\)\s*continue;', r'\}\s*SetSegments\(newSegments\)'),
+             region_exit=True, outputs=[],
+             inputs=[('b', 'Z'), ('e', 'Z'), ('sb0', 'Z'), ('se0', 'Z')], ret='void', rcoq='bool * Z * Z * list (Z * Z)', dummy='(false, 0, 0, nil)',
+             params={'begin': Zb('b'), 'end': Zb('e')}, aliases={'segment': 'segment', 'newSegments': 'newSegments'},
+             types={'seg': dict(coq='(Z * Z)%type')}, dict_shape=('seg', ['begin', 'end']),
+             state=[('$sb', 'sb0', 'Z'), ('$se', 'se0', 'Z'), ('$out', '(@nil (Z * Z))', 'list (Z * Z)')],
+             getters={'segment->Get("begin")': '$sb', 'segment->Get("end")': '$se'},
+             setters={'segment->Set("begin")': '$sb', 'segment->Set("end")': '$se'},
+             bind={'segment': ('({$sb}, {$se})', 'seg')},
+             emits={'newSegments->Add': ('$out', '{0}', ['seg'])}),
+        # PurgeSegments as a whole: early returns, valid_begin, the filtered copy handed to SetSegments
+        dict(name='timeperiod_purge_segments', func='TimePeriod::PurgeSegments', file='lib/icinga/timeperiod.cpp', props=['C08'],
+             inputs=[('e', 'Z'), ('vb_empty', 'bool'), ('vb0', 'Z'), ('has_segments', 'bool'), ('segments', 'list (Z * Z)')],
+             ret='void', dummy='(0, nil, nil)',
+             params={'end': Zb('e')},
+             state=[('$vb', 'vb0', 'Z'), ('$out', '(@nil (Z * Z))', 'list (Z * Z)'), ('$set', '(@nil unit)', 'list unit')],
+             getters={'GetValidBegin()': '$vb'}, setters={'SetValidBegin': '$vb'},
+             skip=[r'^Log\(', r'^ObjectLock ', r'^ASSERT\(OwnsLock\(\)\)$'],
+             emits={'newSegments->Add': ('$out', 'segment', [None]), 'SetSegments': ('$set', 'tt', [None])},
+             bind={'GetValidBegin().IsEmpty()': Bb('vb_empty'), 'GetSegments()': ('has_segments', 'ptr'), 'segment->Get("end")': ('snd segment', 'Z')},
+             lists={'GetSegments()': ('segments', '(Z * Z)%type')}),
+    ]),
     # ---------------------------------------------------------------------------------------- C18 (tracked, outside the subset today)
     dict(area='perm', requires=['Icv.Src.XlPrelude'], items=[
         # builds Expression objects with `new`, writes through an out-parameter: not translatable; listed so that the evidence
